@@ -84,7 +84,7 @@ ADDED = {
  "C03": " Natural states include a stream listener that never accepts, repeated calls on sinks with bounded queues, a log file that has reached the caller's own file size limit (SIGXFSZ), a log file flock()ed by another process and a full descriptor table (0..2 free slots).",
  "C09": " Stress variants: NULL and {NULL} argument vectors mixed into every thread, 256 KiB thread stacks under the largest configurable limits, a socket sink whose sends all fail, long uid / program lists, and a bystander thread that never execs and watches its own descriptors, the process umask (read from /proc) and the working directory while the others log.",
  "C04": " Includes a FIFO log file whose reader attaches late, dropped calls with over-long messages under error_logging=yes, and observed calls in a forked child after a priming call in the parent.",
- "C10": " Stop points also lie right before every I/O call the library issues (open, write, close, socket, send, flock, fopen, fclose).",
+ "C10": " Stop points also lie right before every I/O call the library issues (open, write, close, socket, send, flock, fopen, fclose). A storm arm keeps 4-8 threads logging (formats using the time, passwd/group, utmp and /proc sources; file, devlog, syslog outputs) while the main thread forks 60-200 times, with every openat/read/connect delayed by 10-30 ms under strace, plus bursts of short-lived processes whose forks land in the very first calls (lazy initialisation inside libc); every child makes one wrapped call and must finish; an unfinished child counts only if its own stack, printed from a signal handler, shows a lock wait.",
  "C12": " A third of the states live in an orphaned process tree (top re-parented to pid 1) whose root process carries a generated name (leading blanks/tabs, parentheses, status-key look-alikes); errno on entry is varied. timestamp_ms / timestamp_us are bracketed between two microsecond clock readings. A secure-execution arm starts a set-uid-root copy of the in-vitro driver from uid 12345 (AT_SECURE=1, ruid != euid) and checks the env / id sources there.",
  "C13": " The probe also drives each registry's lookup-by-name functions with every name of the all-on build, each proper prefix, the empty name and extended/upper-case spellings (about 1 280 candidates per configuration): an absent name must be unknown, a present one must resolve to its own index. The end-to-end builds (one of them without devlog, the registry's first output) also run the reduced production library through snoopy.ini: every remaining output must receive the record when named, every remaining filter must decide as its name says.",
  "C14": " The errno the caller holds on entry (0, ERANGE, EINVAL, EINTR, EOVERFLOW, ENOENT) is varied per case.",
